@@ -127,6 +127,11 @@ impl Accept {
         let mut events = mio::Events::with_capacity(256);
 
         loop {
+            // the spin guard counts iterations per step; for the free-running accept thread one
+            // pass of this loop is one step
+            #[cfg(actix_net_verif)]
+            crate::verif::reset_spin();
+
             if let Err(err) = self.poll.poll(&mut events, self.timeout) {
                 match err.kind() {
                     io::ErrorKind::Interrupted => {}
